@@ -15,12 +15,12 @@ from ..symx import Expander, TupleV, ListV
 from ..ncf import M
 from .. import ncf, anf
 from ..anf import R, Unsupported
-from .common import struct_ob, formula_ob, guard, last_return
+from .common import struct_ob, formula_ob, guard, last_return, gradient_lists_in_order
 from .gpm import gp_expander, refs, mob, REL
 from ..report import AnalysisError
 
 FLOORS = {"lml-form": 2, "lml-gradient-form": 2, "factor-of": 2, "loo-form": 3, "loo-gradient-form": 2,
-          "slice-layout": 3, "bounds-passed": 2, "multistart": 1, "selector-wiring": 2}
+          "slice-layout": 5, "bounds-passed": 2, "multistart": 1, "selector-wiring": 2}
 
 
 def loo_expander(prog, ci):
@@ -47,6 +47,8 @@ def loo_expander(prog, ci):
             return R.const(0)
         return NotImplemented
     ex.call_hook = hook
+    ex.on_for = lambda node, env: "once"
+    ex.on_if = lambda node, env: "skip"
 
     orig_binop = ex.binop
 
@@ -61,6 +63,14 @@ def loo_expander(prog, ci):
 def run(prog, tier):
     obs, info = [], []
     problems = []
+
+    # ---------------------------------------------------------------- gradient lists are walked in order
+    for mname in ("marginal_likelihood_gradient", "loo_likelihood_gradient"):
+        c0, fn0 = prog.method("GpRegressor", mname)
+        pr = gradient_lists_in_order(fn0, {"grad_K", "grad_mu", "cov_gradients", "mean_gradients"})
+        obs.append(struct_ob("slice-layout", qual(c0, fn0) + "[order]", not pr, "; ".join(pr), REL, fn0.lineno))
+        if pr:
+            return obs, {}, {"explanation": "gradient list order violated; formula rules not evaluated"}
 
     # ---------------------------------------------------------------- LML value (two siblings)
     for mname in ("marginal_likelihood", "marginal_likelihood_gradient"):
@@ -127,7 +137,8 @@ def run(prog, tier):
         res = guard(lambda: ex.run(fn.body, env))
         val = res.items[0] if isinstance(res, TupleV) else res
         # in these functions alpha is the local  iK @ (y - mu): rename to the canonical atom
-        a_loc = [a for a in val.all_atoms() if a[0] == "fn" and a[1] == "matmul"]
+        a_loc = [a for a in val.all_atoms() if a[0] == "fn" and a[1] == "matmul"
+                 and any(b == ("sym", "self.y") for b in anf.REG.get(a[2])[1].all_atoms())]
         ik_loc = None
         for a in val.all_atoms():
             if a[0] == "fn" and a[1] == "diag":
